@@ -52,7 +52,11 @@ where
         use memchr::memchr;
 
         let len = loop {
-            let src = self.inner.fill_buf()?;
+            let src = match self.inner.fill_buf() {
+                Ok(src) => src,
+                Err(ref e) if e.kind() == io::ErrorKind::Interrupted => continue,
+                Err(e) => return Err(e),
+            };
 
             if self.has_pending_cr {
                 // The carriage return that ended the previous buffer is part of the line
